@@ -22,15 +22,16 @@ esac
 # LIBJWT_VERIF is the reserved guard for hooks in /repo (none are needed; see DESIGN 2.10).
 CFLAGS="-Wno-error -g -O1 -fno-omit-frame-pointer $SAN -D__compiler_offsetof=__builtin_offsetof -DLIBJWT_VERIF"
 
-if [ ! -f "$B/lib/build.ninja" ] || [ "$(cat "$B/lib/.repo" 2>/dev/null)" != "$REPO" ]; then
+if [ ! -f "$B/lib/build.ninja" ] || [ "$(cat "$B/lib/.repo" 2>/dev/null)" != "$REPO" ] || [ ! -f "$B/lib/.lenient" ]; then
 	rm -rf "$B/lib"
-	cmake -S "$REPO" -B "$B/lib" -G Ninja -DCMAKE_C_COMPILER=clang -DCMAKE_BUILD_TYPE=None \
+	cmake -S "$REPO" -B "$B/lib" -G Ninja -DCMAKE_C_COMPILER="$ROOT/scripts/clang-lenient.sh" -DCMAKE_BUILD_TYPE=None \
 		-DWITH_TESTS=OFF -DWITH_GNUTLS=ON -DCMAKE_C_FLAGS="$CFLAGS" >"$B/cmake.log" 2>&1 || {
 		cat "$B/cmake.log" >&2
 		echo "build.sh: cmake configure failed" >&2
 		exit 2
 	}
 	echo -n "$REPO" >"$B/lib/.repo"
+	touch "$B/lib/.lenient"
 fi
 ninja -C "$B/lib" jwt_static >"$B/ninja.log" 2>&1 || {
 	tail -50 "$B/ninja.log" >&2
